@@ -269,7 +269,7 @@ impl Harness for Histories {
         let mut h = H64::new();
         for step in 0..n {
             // free space seen by the next message: buffer length (hook accessor) minus pending bytes
-            let free = buf_len(&conn) - m.pending.len();
+            let free = buf_len(&conn).saturating_sub(m.pending.len());
             let lens = self.lens(free);
             let nmsg = lens.len() * KINDS.len();
             let nfail = FAILS.len() * 2;
@@ -411,7 +411,7 @@ fn square_case(idx: u64, sink: &mut Sink<'_>) {
     let mut m = Model::new();
     let case = || json!({"form": form, "first": format!("{k1:?}({l1})"), "second": format!("{k2:?}({l2})"), "flush_between": flush_between});
     for (i, (k, l)) in [(k1, l1), (k2, l2)].into_iter().enumerate() {
-        let free = buf_len(&conn) - m.pending.len();
+        let free = buf_len(&conn).saturating_sub(m.pending.len());
         if doc_len(k, l) == free {
             sink.goal("document-ends-exactly-at-buffer-end");
         }
